@@ -2,7 +2,7 @@
    model of html / latex / markdown / plaintext) depends only on the class and the pair sequence
    `flat` of a constructed text; isalpha on constructed texts. *)
 From Pybtex Require Import Base.Prelude Base.PyChar Base.PyStr Model.RtTypes Model.RichText Model.Backends
-  Spec.Flat Spec.FlatOps Proofs.RichText Proofs.RichWf Proofs.RichInj Proofs.RichNormal.
+  Spec.Flat Spec.FlatOps Proofs.RichText Proofs.RichWf Proofs.RichInj Proofs.RichNormal Proofs.RichHist Proofs.RichSplit Proofs.RichHist2.
 
 Theorem render_flat_lem enc T b t1 t2 : good t1 -> good t2 -> typeinfo t1 = typeinfo t2 ->
   flat t1 = flat t2 -> render enc T b t1 = render enc T b t2.
@@ -43,4 +43,111 @@ Proof.
     cbn [flat]. now rewrite forallb_push.
   - cbn [risalpha]. rewrite (alpha_parts ps (good_parts _ G eq_refl) H). unfold isalpha_flat. rewrite flat_length.
     cbn [flat]. now rewrite forallb_push.
+Qed.
+
+(* ---- the observers at the end of a history ---- *)
+Theorem observe_compose_all e r : spec e = Some r -> exists v, eval_c e = Ok v /\
+  rlen v = length (snd r) /\ rstr v = flat_str (snd r) /\ risalpha v = isalpha_flat (snd r).
+Proof.
+  intro H. destruct (ops_compose_x e r H) as [v [Hv [G [_ F]]]]. exists v. split; [exact Hv|].
+  rewrite <- F. split; [symmetry; apply flat_length|]. split; [apply str_flat_lem|now apply isalpha_flat_lem].
+Qed.
+
+Theorem history_observers e v : covered e = true -> eval_c e = Ok v -> exists r, hsem e r /\
+  rlen v = length (snd r) /\ rstr v = flat_str (snd r) /\ risalpha v = isalpha_flat (snd r).
+Proof.
+  intros C H. destruct (history_sound e v C H) as [r [Hr [G [_ F]]]]. exists r. split; [exact Hr|].
+  rewrite <- F. split; [symmetry; apply flat_length|]. split; [apply str_flat_lem|now apply isalpha_flat_lem].
+Qed.
+
+(* ---- String(s).split() is s.split(): the regex split followed by dropping the empty pieces is
+        exactly Python's whitespace split (Base/PyStr.split_ws, whitespace = the 29 code points of
+        Base/PyChar.is_space) ---- *)
+Lemma re_split_ws_filter s : forall acc w, (w = true -> acc = []) ->
+  filter (fun p : str => negb (length p =? 0) || false) (re_split_ws s acc w) = split_ws_aux s acc.
+Proof.
+  induction s as [|c s IH]; intros acc w Hw; cbn [re_split_ws split_ws_aux].
+  - destruct w; [rewrite (Hw eq_refl); reflexivity|]. cbn [filter]. rewrite rev_length.
+    destruct acc; reflexivity.
+  - destruct (is_space c).
+    + destruct w.
+      * rewrite (Hw eq_refl). now apply IH.
+      * cbn [filter]. rewrite rev_length, IH by reflexivity. destruct acc; reflexivity.
+    + apply IH. discriminate.
+Qed.
+
+Theorem string_split_ws_lem s : split_c (RStr s) SepNone None = Ok (map RStr (split_ws s)).
+Proof.
+  unfold split_c. cbn [split depth]. unfold str_split. cbn [bind]. unfold split_ws.
+  f_equal. f_equal. apply (re_split_ws_filter s [] false). discriminate.
+Qed.
+
+(* ---- the same for a text whose only part is one String: Text('a b  c').split() and the like;
+        every piece is rebuilt with the markup of the text (the F17s-free one-part domain) ---- *)
+Lemma split_items_strs l : split_items false (map RStr l) [] =
+  (map (fun w => [RStr w]) (filter (fun p : str => negb (length p =? 0)) l), []).
+Proof.
+  induction l as [|w l IH]; [reflexivity|]. cbn [map split_items]. rewrite IH. cbn [rlen filter].
+  rewrite orb_false_r. destruct (negb (length w =? 0)); reflexivity.
+Qed.
+
+Lemma mkc_one k w : w <> [] -> mkc k [RStr w] = Ok (build k [RStr w]).
+Proof. destruct w as [|c w]; [congruence|]. intros _. reflexivity. Qed.
+Lemma mkc_one_empty k : mkc k [RStr []] = Ok (build k []).
+Proof. reflexivity. Qed.
+
+Lemma mapM_one k (l : list str) : Forall (fun w => w <> []) l ->
+  mapM (fun ps => mkc k ps) (map (fun w => [RStr w]) l) = Ok (map (fun w => build k [RStr w]) l).
+Proof.
+  induction 1 as [|w l Hw _ IH]; [reflexivity|]. cbn [map mapM]. rewrite (mkc_one k w Hw). cbn [bind]. now rewrite IH.
+Qed.
+
+Lemma re_split_ws_nonnil s : forall acc w, re_split_ws s acc w <> [].
+Proof. induction s as [|c s IH]; intros acc w; cbn; [destruct w; discriminate|]. destruct (is_space c); [destruct w; [apply IH|discriminate]|apply IH]. Qed.
+
+Lemma filter_nonnil_forall (l : list str) : Forall (fun w => w <> []) (filter (fun p : str => negb (length p =? 0)) l).
+Proof.
+  apply Forall_forall. intros w Hw. apply filter_In in Hw as [_ Hw]. destruct w; [discriminate|discriminate].
+Qed.
+
+Theorem one_part_split_ws_lem t s : is_multipart t = true -> (forall ps, t <> RProt ps) -> parts_of t = [RStr s] ->
+  split_c t SepNone None = Ok (map (fun w => build (kind_of t) [RStr w]) (split_ws s)).
+Proof.
+  intros Hm Hnp Hp.
+  assert (E : split_c t SepNone None =
+    (do sps <- mapM (fun p => split 1 p SepNone (Some true)) (parts_of t);
+     let '(ys, tl) := split_loop false sps [] in
+     do out <- mapM (create_similar t) ys;
+     match tl with
+     | [] => Ok out
+     | _ => do tlt <- create_similar t tl; if negb (rlen tlt =? 0) || false then Ok (out ++ [tlt]) else Ok out
+     end)).
+  { unfold split_c. destruct t; cbn [is_multipart] in Hm; try discriminate; cbn [parts_of] in Hp; subst;
+      try reflexivity. exfalso. now apply (Hnp [RStr s]). }
+  rewrite E, Hp. cbn [mapM split str_split bind]. set (L := re_split_ws s [] false).
+  assert (Ef : filter (fun p : str => negb (length p =? 0) || true) L = L).
+  { clear. induction L as [|p L IH]; [reflexivity|]. cbn. rewrite orb_true_r. now rewrite IH. }
+  match goal with |- context [filter ?f L] => replace (filter f L) with L by (symmetry; exact Ef) end. cbn [split_loop].
+  pose proof (re_split_ws_nonnil s [] false) as Hne. fold L in Hne.
+  destruct (map RStr L) as [|x0 l0] eqn:EL; [destruct L; [congruence|discriminate]|]. rewrite <- EL. clear x0 l0 EL.
+  assert (Erl : removelast (map RStr L) = map RStr (removelast L)).
+  { clear. induction L as [|p L IH]; [reflexivity|]. cbn [map removelast]. destruct L; [reflexivity|]. cbn [map] in *. now rewrite IH. }
+  assert (Ela : last (map RStr L) (RStr []) = RStr (last L [])).
+  { clear. induction L as [|p L IH]; [reflexivity|]. cbn [map last]. destruct L; [reflexivity|]. exact IH. }
+  rewrite Erl, split_items_strs, Ela. cbn [app split_loop].
+  rewrite app_nil_r. change (create_similar t) with (fun ps => mkc (kind_of t) ps).
+  rewrite (mapM_one (kind_of t) _ (filter_nonnil_forall _)). cbn [bind]. cbv beta.
+  assert (Esplit : split_ws s = filter (fun p : str => negb (length p =? 0)) L).
+  { unfold split_ws, L. symmetry. rewrite <- (re_split_ws_filter s [] false ltac:(discriminate)).
+    apply filter_ext. intro a. now rewrite orb_false_r. }
+  assert (EL2 : filter (fun p : str => negb (length p =? 0)) L =
+                filter (fun p : str => negb (length p =? 0)) (removelast L) ++ filter (fun p : str => negb (length p =? 0)) [last L []]).
+  { rewrite <- filter_app. f_equal. apply app_removelast_last. exact Hne. }
+  rewrite Esplit, EL2, map_app. cbn [filter].
+  destruct (last L []) as [|c w] eqn:El.
+  - rewrite mkc_one_empty. cbn [bind]. assert (Z : rlen (build (kind_of t) []) = 0) by (destruct (kind_of t); reflexivity).
+    rewrite Z. cbn. now rewrite app_nil_r.
+  - rewrite (mkc_one (kind_of t) (c :: w) ltac:(discriminate)). cbn [bind].
+    assert (Z : negb (rlen (build (kind_of t) [RStr (c :: w)]) =? 0) = true) by (destruct (kind_of t); reflexivity).
+    rewrite Z. reflexivity.
 Qed.
